@@ -58,8 +58,15 @@ func fatal(a ...interface{}) {
 
 func main() {
 	flag.Parse()
+	// export data of every package's dependencies is collected before the first file is rewritten:
+	// afterwards a dependency that was already instrumented imports verif/simrt, which the module of
+	// the copy does not know, and `go list -export` of its dependents would fail
+	exportsOf := map[string]map[string]string{}
 	for _, dir := range flag.Args() {
-		instrumentDir(dir)
+		exportsOf[dir] = loadExports(dir)
+	}
+	for _, dir := range flag.Args() {
+		instrumentDir(dir, exportsOf[dir])
 	}
 	if !*quiet {
 		b, _ := json.Marshal(counts)
@@ -67,7 +74,7 @@ func main() {
 	}
 }
 
-func instrumentDir(dir string) {
+func loadExports(dir string) map[string]string {
 	cmd := exec.Command("go", "list", "-deps", "-export", "-json=ImportPath,Export", ".")
 	cmd.Dir = dir
 	cmd.Stderr = os.Stderr
@@ -86,6 +93,10 @@ func instrumentDir(dir string) {
 		}
 		exports[p.ImportPath] = p.Export
 	}
+	return exports
+}
+
+func instrumentDir(dir string, exports map[string]string) {
 	imp := importer.ForCompiler(fset, "gc", func(path string) (io.ReadCloser, error) {
 		f := exports[path]
 		if f == "" {
@@ -459,8 +470,9 @@ func isBlank(e ast.Expr) bool {
 func rewriteMapRange(s *ast.RangeStmt) ast.Stmt {
 	counts["maprange"]++
 	mt := info.TypeOf(s.X).Underlying().(*types.Map)
+	keysFn := "MapKeys"
 	if b, ok := mt.Key().Underlying().(*types.Basic); !ok || b.Info()&(types.IsOrdered) == 0 {
-		die(s.Pos(), "range over a map whose key type %s is not ordered", mt.Key())
+		keysFn = "MapKeysAny" // pointers, structs, interfaces...: canonical order by a deep rendering of the key
 	}
 	var wrap []ast.Stmt
 	m := s.X
@@ -475,7 +487,7 @@ func rewriteMapRange(s *ast.RangeStmt) ast.Stmt {
 	ks, i := tmp("ks"), tmp("i")
 	body := rewriteList(s.Body.List)
 	lhs := []ast.Expr{ks, i}
-	rhs := []ast.Expr{call("MapKeys", m), &ast.BasicLit{Kind: token.INT, Value: "0"}}
+	rhs := []ast.Expr{call(keysFn, m), &ast.BasicLit{Kind: token.INT, Value: "0"}}
 	var pro []ast.Stmt
 	keyExpr := ast.Expr(&ast.IndexExpr{X: ks, Index: i})
 	define := s.Tok == token.DEFINE
